@@ -392,10 +392,11 @@ theorem connStep_emit (cfg : Cfg) (fresh : List Char) (x : Conn) (ev : Ev) (st :
       have h1 := (clientGate_outs_emit _ _ _ (gate_outs _ _ _ h).1).1
       simp at h1
     | sameRead e => simp [idle] at h
-    | stanza st0 =>
+    | stanza stIn =>
       have hg := gate_outs _ _ _ h
       have hcg := clientGate_outs_emit _ _ _ hg.1
-      show (st.sender = x.jid ∨ st.sender = bareOf x.jid) ∧ (gate x (clientGate x (clientStanza cfg x st0))).conn = x
+      show (st.sender = x.jid ∨ st.sender = bareOf x.jid) ∧ (gate x (clientGate x (clientStanza cfg x stIn.attrs))).conn = x
+      generalize stIn.attrs = st0 at *
       rw [hg.2, hcg.2]
       have h1 := hcg.1
       unfold clientStanza at h1 ⊢
